@@ -161,6 +161,15 @@ func Families() []Named {
 			s.Tokens = []TokDecl{{Name: "TN", Alias: "N"}, {Name: "TP", Alias: "+"}}
 			return s
 		}()},
+		// rule 1 has twelve symbols and there are eleven rules (item (1, 11) and item (11, 1) must stay different states)
+		{"long-rule-one-and-eleven-rules", Parse("log", []string{"TN", "TW"}, "stamp: TN '-' TN '-' TN 'T' TN '.' TN '.' TN 'Z' | '@' TN '/' frac 'Z' | '@' TN 'Z' ; log: | log entry ; entry: stamp level TW ',' | stamp ',' ; level: 'E' | 'W' | 'I' ; frac: TN")},
+		// an alternative with %prec stands before the alternatives of the binary operators in one group
+		{"prec-alternative-first", Parse("E", []string{"TA", "TU"}, "E: '-' E %prec TU | E '<' E | E '+' E | TA").
+			WithPrec("left '+'", "nonassoc '<'", "right TU")},
+		// a state with nine terminal transitions; an item that comes late in its closure continues on the first of them
+		{"wide-state", Parse("S", []string{"TA", "TB", "TC", "TD", "TE", "TF", "TG", "TH", "TI", "TX"}, "S: TA TX | TB TX | TC TX | TD TX | TE TX | TF TX | TG TX | TH TX | TI TX | C TX ; C: TA TB")},
+		// dangling else where the declarations make the reduction win: the state behind the else is cut off, with its successors
+		{"dangling-else-reduce-wins", Parse("S", []string{"TI", "TE", "TA"}, "S: TI S | TI S TE S | TA").WithPrec("left TE", "left TI")},
 		{"rr-same-level-right", Parse("S", []string{"TA", "TC"}, "S: V TA | C TA | V ; V: TA %prec TC ; C: TA %prec TC").WithPrec("right TC")},
 	}
 }
